@@ -62,6 +62,35 @@ Deciding monitor M (boundary oracle, public API only):
 * M.nonstrict  the dump of a document whose strict re-parse had no complaint is also
            parsed with strict=False: same paragraph kinds, same typed values, same
            re-dump.
+* M.fmt    HEADER FORMAT VALUES OTHER THAN THE CANONICAL URL, URL-ISH HEADER VALUES.  The
+           Format field is part of every header comparison (reference: the module's own
+           CUR_FORMAT / model_fixup, never the library's constants).  Format values -
+           unknown URLs, the known URL without final slash / with http:, near misses of
+           it (doubled slash, query, fragment, upper-case scheme or host, other version,
+           other host, decorations), the historical pre-1.0 DEP-5 URLs, non-URL strings -
+           are given (a) at construction: Header(data) over a Deb822 object that carries
+           Format (and possibly other raw / single-line fields, Format at any position) -
+           Header has no format= parameter on the unchanged tree; (b) by assignment:
+           before / between / after the other header fields, twice, late (after all
+           paragraphs were added, optionally after a first dump / re-parse cycle), to a
+           decoy Header that is never added; (c) as parsed input: the Format line of a
+           dump that already round-tripped is replaced by 'Format: V' (or by the
+           deprecated spelling 'Format-Specification: V') and the text is parsed with
+           strict=True / False.  Reference (established on the unchanged tree): a value is
+           rewritten only when a Header is CONSTRUCTED over data carrying it (so also by
+           every parse), and only the spellings of the known format the documented fix-up
+           covers (missing final '/', 'http:'); assignment rewrites nothing.  Hence:
+           first dump shows the value last given; the strict / non-strict re-parse reads
+           model_fixup of it and every other header field as written; the re-dump is the
+           first dump byte for byte - with exactly the Format line fixed up when the first
+           dump showed an assigned fixable spelling; M.second-round: the re-dump parses to
+           the same values and dumps to itself again.  Source / Upstream-Name /
+           Upstream-Contact / Disclaimer / Comment carry URL-ish values (with / without
+           final slash, doubled slash, http / https / other schemes, query, fragment;
+           multi-line raw values whose continuation lines have one or several leading
+           blanks / a tab and trailing blanks).  What the library logs about formats is
+           counted (recorded:log:*), never judged; anything it hands to the warnings module
+           in these cases is recorded inside warnings.catch_warnings, never raised.
 
 Witnesses of state kept between objects are confirmed in a fresh interpreter (what
 --replay does): the shrunk case, the case, the case built twice, the case after the
@@ -122,7 +151,24 @@ RULE = ('Seeded specs of copyright documents: header (optional Upstream-Name, Up
         're-parse cycle; early reads (read every object right after creation) in 60% of them and in half of the '
         'ordinary documents; non-strict re-parse for all of them and a quarter of the ordinary documents.  MULTI '
         'CASES (multi:*): 2..4 small factory documents sharing one value pool built in sequence in one case, all '
-        'objects kept alive and re-read at the end.')
+        'objects kept alive and re-read at the end.  HEADER FORMATS AND URL-ISH HEADER VALUES (fmt:*, feat:url-*): '
+        'header documents (0..2 small paragraphs) whose Format is canonical (8%), one of the 3 spellings the documented '
+        'fix-up covers (known URL without final slash, with http:, both), a near miss of the known URL (doubled / '
+        'tripled final slash, query, fragment, upper-case scheme / host / path, other version, other host, port, missing '
+        'or other scheme, decorations such as "<...>" or a trailing word), a historical pre-1.0 DEP-5 URL '
+        '(dep.debian.net/deps/dep5 with and without slash / https / fragment, anonscm viewvc dep5.mdwn?..., svn wsvn, '
+        'loggerhead, wiki Proposals/CopyrightFormat), an unknown URL (fixed list and composed scheme x host x path x '
+        'final slash(es) x query x fragment), or a non-URL string ("x", "1.0", "http:", "//", "Format: y", non-ASCII '
+        '...); given at construction (Header(data), other raw / single-line fields optionally in the data, Format at any '
+        'position), by assignment (any position among the header assignments, twice, late, late after a first dump / '
+        're-parse cycle, on a decoy Header), and as parsed input (Format line of the round-tripped dump replaced; also as '
+        'Format-Specification); ALL 143 fixed values x 5 ways as header-only documents in every run (fmt:enumerated), plus '
+        'seeded header documents, plus a non-default Format assigned in 8% of the ordinary and factory documents; every '
+        'such document is dumped, parsed strict and non-strict, re-dumped, parsed and dumped a second time.  Source / '
+        'Upstream-Name / Upstream-Contact / Disclaimer / Comment of the header documents carry URLs with and without '
+        'final slash, http / https / other schemes, queries, fragments, inside single-line values, list entries and '
+        'multi-line raw values whose continuation lines have 1..8 leading blanks or a tab and 0..3 trailing blanks.  A '
+        'document that gives a Format other than the canonical URL is non-trivial.')
 ASSUMPTIONS = [
     'domain: text lines never whitespace-only (unless empty) nor a lone "."; last line of a text non-blank; only \\n as '
     'line boundary (no \\r, \\v, \\f, \\x1c-\\x1e, \\x85, U+2028/9); first lines and single-line values without outer blanks',
@@ -159,6 +205,32 @@ ASSUMPTIONS = [
     'a late assignment after a first dump must show in the second dump: dump() reflects the current values',
     'witness confirmation: up to 24 fresh-interpreter executions per shard; a finding that is not reproduced standalone '
     'is still a violation (it was observed) and says so in its message',
+    'Format reference = the behaviour established on the unchanged tree (module constants CUR_FORMAT / model_fixup, '
+    'independent of the library\'s): Header() starts with the canonical URL; header.format = v stores v unchanged for '
+    'every single-line v; a Header CONSTRUCTED over data (Header(data), every parse) rewrites v to the canonical URL iff '
+    'v + (final "/" if missing) with a leading "http:" replaced by "https:" IS the canonical URL, and leaves every other '
+    'value exactly as it is (unknown URLs, doubled slashes, queries, fragments, upper-case spellings, historical DEP-5 '
+    'URLs, non-URL strings); consequently the re-dump of a document whose first dump shows an ASSIGNED fixable spelling '
+    'differs from the first dump in exactly the Format line (documented fix-up), and is a fixpoint from there; in every '
+    'other case the re-dump is the first dump byte for byte',
+    'Format values are non-empty single lines without outer blanks and without the excluded line-boundary characters '
+    '(what the Deb822 reader returns for a first line); Format = None / multi-line values (rejected by the setter) and '
+    'values with outer blanks are outside the domain and never generated; Header(format=...) does not exist on the '
+    'unchanged tree (TypeError), construction with a format goes through Header(data)',
+    'what the library LOGS about formats ("format not known", "Fixing Format URL", deprecated Format-Specification) is '
+    'counted by a handler on its logger (recorded:log:*; no floor, no verdict); in documents that give a Format '
+    'explicitly the whole check runs inside warnings.catch_warnings(record=True) with simplefilter("always"), so a '
+    'warning the library might issue about a format is recorded (recorded:warnings-module:*), not raised under the '
+    'warnings-as-errors ambient, and never judged',
+    'parsed-format starting points are derived only from a dump that already round-tripped (strict, non-strict, second '
+    'round) and only when its header paragraph shows exactly one line "Format: <value>" (else fmt:unsplittable, nothing '
+    'demanded); the substituted line is "Format: V" - the text the library itself writes for a single-line V - and the '
+    'expected dump is that text with model_fixup(V) in the Format line; for the deprecated spelling '
+    '"Format-Specification: V" (documented to be rewritten as Format) only the values (Format reads model_fixup(V), all '
+    'other fields as written) and the fixpoint of the FIRST dump are demanded - where the rewritten field is placed is '
+    'not',
+    'header fields given through the data object of Header(data) are raw / single-line fields only (Source, Disclaimer, '
+    'Comment, Copyright, Upstream-Name), stored as data[name] = value exactly as the property setter would store them',
     'License.from_str(s).to_str() == s is only demanded for s = License(synopsis, text).to_str() of an in-domain '
     'License whose decoded value was already equal to the generator\'s (so only what the stated inverse law implies '
     'for a pure to_str is demanded); never for hand-written encoded strings',
@@ -206,11 +278,13 @@ MUST_REACH = [
     'debian.deb822:RestrictedWrapper.dump',
 ]
 
-DOCS = {'quick': 10000, 'thorough': 560000}
+DOCS = {'quick': 9600, 'thorough': 560000}
 CODEC = {'quick': 200000, 'thorough': 11200000}
 LICENSES = {'quick': 30000, 'thorough': 1400000}
 FACTORY = {'quick': 1600, 'thorough': 80000}
 MULTI = {'quick': 320, 'thorough': 16000}
+HEADERDOCS = {'quick': 1600, 'thorough': 84000}
+FORMAT_IN_ORDINARY_DOCS = 0.08       # share of the ordinary / factory documents that also get a non-default Format
 LISTS = {'quick': 20000, 'thorough': 1000000}
 LIST_FIELD_CYCLE = ('files', 'files', 'files', 'upstream_contact', 'files_excluded', 'files_included')
 CODEC_BATCH = 250
@@ -461,8 +535,53 @@ def linelist_ok(vs):
     return isinstance(vs, list) and len(vs) >= 1 and all(single_ok(v) for v in vs)
 
 
+# ---------------------------------------------------------------------------
+# header Format values: the module's OWN reference (never the library's constants)
+
+CUR_FORMAT = 'https://www.debian.org/doc/packaging-manuals/copyright-format/1.0/'
+MODEL_KNOWN_FORMATS = frozenset([CUR_FORMAT])
+
+
+def model_fixup(v):
+    """What the unchanged tree does to a Format value when a Header object is
+    CONSTRUCTED over data carrying it (Header(data), and therefore every parse):
+    the documented fix-up of KNOWN formats only - a missing final '/' is added
+    and a leading 'http:' becomes 'https:', and only if the result is a known
+    format is the value rewritten to it; every other value is kept as it is.
+    Assignment (header.format = v) rewrites nothing."""
+    if v == CUR_FORMAT:
+        return v
+    f = v if v.endswith('/') else v + '/'
+    if f.startswith('http:'):
+        f = 'https:' + f[5:]
+    return f if f in MODEL_KNOWN_FORMATS else v
+
+
+def swap_format_line(text, cur, new_line):
+    """`text` (a dump) with the line 'Format: <cur>' of its header paragraph (the
+    lines before the first empty line) replaced by new_line; None unless that
+    paragraph has exactly one such line."""
+    lines = text.split('\n')
+    try:
+        end = lines.index('')
+    except ValueError:
+        end = len(lines)
+    want = 'Format: ' + cur
+    at = [i for i in range(end) if lines[i] == want]
+    if len(at) != 1:
+        return None
+    lines[at[0]] = new_line
+    return '\n'.join(lines)
+
+
+# Deb822 field names of the header fields that may be put into the data object a Header is constructed over
+DATA_FIELD_NAMES = {'upstream_name': 'Upstream-Name', 'source': 'Source', 'disclaimer': 'Disclaimer',
+                    'comment': 'Comment', 'copyright': 'Copyright'}
+PARSED_STYLES = ('format', 'format-specification')
+
 HEADER_FIELDS = {
     # attr: (validator for non-None values, kind)
+    'format': (single_ok, 'format'),
     'upstream_name': (single_ok, 'single'),
     'upstream_contact': (linelist_ok, 'lines'),
     'source': (raw_ok, 'raw'),
@@ -487,7 +606,32 @@ def _assignments_ok(assignments):
     for attr, val in assignments:
         if attr not in HEADER_FIELDS:
             return False
+        if val is None and attr == 'format':
+            return False                 # Format cannot be cleared (allow_none=False): not a value of the domain
         if val is not None and not HEADER_FIELDS[attr][0](val):
+            return False
+    return True
+
+
+def _hdata_ok(hd):
+    if hd is None:
+        return True
+    if not isinstance(hd, dict) or not single_ok(hd.get('format')):
+        return False
+    pos = hd.get('pos', 0)
+    if not isinstance(pos, int) or isinstance(pos, bool) or pos < 0:
+        return False
+    seen = set()
+    for attr, val in hd.get('fields', []):
+        if attr not in DATA_FIELD_NAMES or attr in seen or val is None or not HEADER_FIELDS[attr][0](val):
+            return False
+        seen.add(attr)
+    return True
+
+
+def _fmt_parsed_ok(entries):
+    for v, style in entries:
+        if not single_ok(v) or style not in PARSED_STYLES:
             return False
     return True
 
@@ -509,9 +653,11 @@ def spec_in_domain(case):
                 return False
         if case.get('hdr') not in (None, 'own'):
             return False
-        for flag in ('early', 'nonstrict', 'late_after_dump'):
+        for flag in ('early', 'nonstrict', 'late_after_dump', 'second_round'):
             if not _flag_ok(case.get(flag)):
                 return False
+        if not _hdata_ok(case.get('hdata')) or not _fmt_parsed_ok(case.get('fmt_parsed', [])):
+            return False
         for op in case.get('ops', []):
             table = FILES_FIELDS if op['t'] == 'F' else LICENSE_FIELDS if op['t'] == 'L' else None
             if table is None:
@@ -784,9 +930,14 @@ def gen_header_value(r, attr):
     return gen_raw(r, 4, copyright_like=(attr == 'copyright'))
 
 
+# the header fields gen_doc draws from, in the order it always used (the Format field has its own generators below)
+GEN_HEADER_ATTRS = ('upstream_name', 'upstream_contact', 'source', 'disclaimer', 'comment', 'license', 'copyright',
+                    'files_excluded', 'files_included')
+
+
 def gen_doc(r):
     header = []
-    attrs = [a for a in HEADER_FIELDS if r.random() < (0.5 if a in ('upstream_name', 'upstream_contact') else 0.22)]
+    attrs = [a for a in GEN_HEADER_ATTRS if r.random() < (0.5 if a in ('upstream_name', 'upstream_contact') else 0.22)]
     r.shuffle(attrs)
     for a in attrs:
         header.append([a, gen_header_value(r, a)])
@@ -1084,6 +1235,324 @@ def enum_punct_lists():
                 yield field, list(t)
 
 
+# ---------------------------------------------------------------------------
+# header Format values other than the canonical URL, URL-ish values of the other header fields
+
+_CF = CUR_FORMAT
+_CF_PATH = '/doc/packaging-manuals/copyright-format/1.0/'
+# the three spellings of the known format the documented fix-up covers (missing final slash, http:)
+FMT_FIXABLE = [_CF[:-1], 'http' + _CF[5:], 'http' + _CF[5:-1]]
+# near misses of the known format: anything a more "tolerant" fix-up would also rewrite
+FMT_NEAR = [_CF + '/', _CF + '//', 'http' + _CF[5:] + '/', _CF + '?rev=174', _CF[:-1] + '?rev=174',
+            _CF + '?', _CF + '#', _CF + '#files-field', _CF[:-1] + '#license-specification', _CF + '?a=1#b',
+            _CF + 'index.html', _CF + './', _CF + '../1.0/', _CF + ' (DEP-5)', 'URL: ' + _CF, '<' + _CF + '>',
+            '<' + _CF[:-1] + '>', 'HTTPS' + _CF[5:], 'HTTP' + _CF[5:], 'Https' + _CF[5:], 'HTTP' + _CF[5:-1], _CF.upper(),
+            'https://WWW.DEBIAN.ORG' + _CF_PATH, 'https://www.debian.org/doc/packaging-manuals/Copyright-Format/1.0/',
+            'https://debian.org' + _CF_PATH, 'http://debian.org' + _CF_PATH[:-1], 'https://www.debian.org:443' + _CF_PATH,
+            'https://www.debian.org.' + _CF_PATH, 'https://www.debian.net' + _CF_PATH, 'https:/www.debian.org' + _CF_PATH,
+            'https:www.debian.org' + _CF_PATH, 'http:/www.debian.org' + _CF_PATH, 'https//www.debian.org' + _CF_PATH,
+            'ftp://www.debian.org' + _CF_PATH, 'httpss://www.debian.org' + _CF_PATH, 'http+https://www.debian.org' + _CF_PATH,
+            'www.debian.org' + _CF_PATH, '//www.debian.org' + _CF_PATH, _CF_PATH, _CF_PATH[:-1],
+            'https://www.debian.org/doc/packaging-manuals/copyright-format/1.1/',
+            'https://www.debian.org/doc/packaging-manuals/copyright-format/1.0.1/',
+            'https://www.debian.org/doc/packaging-manuals/copyright-format/1/',
+            'https://www.debian.org/doc/packaging-manuals/copyright-format/1.00/',
+            'https://www.debian.org/doc/packaging-manuals/copyright-format/',
+            'https://www.debian.org/doc/packaging-manuals/copyright-format',
+            'http://www.debian.org/doc/packaging-manuals/copyright-format/1.1',
+            'https://www.debian.org/doc//packaging-manuals/copyright-format/1.0/',
+            _CF + '\u200b', 'https\uff1a' + _CF[6:]]
+# the historical (pre-1.0) DEP-5 addresses found in old debian/copyright files
+FMT_DEP5 = ['http://dep.debian.net/deps/dep5', 'http://dep.debian.net/deps/dep5/', 'https://dep.debian.net/deps/dep5',
+            'https://dep.debian.net/deps/dep5/', 'http://dep.debian.net/deps/dep5/?rev=135',
+            'http://dep.debian.net/deps/dep5#files-field', 'http://dep.debian.net/deps/dep5/#license-field',
+            'http://anonscm.debian.org/viewvc/dep/web/deps/dep5.mdwn?revision=174',
+            'http://anonscm.debian.org/viewvc/dep/web/deps/dep5.mdwn?revision=202',
+            'http://anonscm.debian.org/viewvc/dep/web/deps/dep5.mdwn?view=markup&pathrev=174',
+            'https://anonscm.debian.org/viewvc/dep/web/deps/dep5.mdwn?view=markup&pathrev=174',
+            'http://anonscm.debian.org/viewvc/dep/web/deps/dep5.mdwn', 'http://anonscm.debian.org/viewvc/dep/web/deps/dep5.mdwn/',
+            'http://svn.debian.org/wsvn/dep/web/deps/dep5.mdwn?op=file&rev=135',
+            'http://svn.debian.org/wsvn/dep/web/deps/dep5.mdwn?rev=59',
+            'http://anonscm.debian.org/loggerhead/dep/dep5/trunk/annotate/179/dep5/copyright-format.xml',
+            'http://wiki.debian.org/Proposals/CopyrightFormat', 'http://wiki.debian.org/Proposals/CopyrightFormat?action=recall&rev=196',
+            'https://wiki.debian.org/Proposals/CopyrightFormat/', 'http://www.debian.org/doc/packaging-manuals/copyright-format/1.0/?dep5']
+FMT_UNKNOWN_URLS = ['https://example.org/format/', 'https://example.org/format', 'http://example.org/format/',
+                    'http://example.org/format', 'http://example.org', 'https://example.org/', 'http://example.org/?',
+                    'https://example.org/a/b.html#c', 'http://example.org/f?x=1&y=2', 'HTTP://EXAMPLE.ORG/F',
+                    'ftp://example.org/pub/format/', 'file:///usr/share/doc/debian-policy/copyright-format-1.0.txt.gz',
+                    'mailto:format@example.org', 'urn:dep:5', 'git://example.org/format.git', 'http://[::1]:8080/f/',
+                    'https://été.example/format/', 'http://example.org/日本語']
+FMT_NONURL = ['x', '1.0', '1', '0', 'copyright-format 1.0', 'copyright-format/1.0', 'DEP-5', 'dep5', 'none', 'None',
+              'unknown', 'é-format', '日本語', 'http', 'https', 'http:', 'https:', 'http:/', 'https:/',
+              'http://', 'https://', 'http:x', 'https:/x', '/', '//', '///', 'a:b', 'a/', '#1', '#', '?', '-', '--', '.',
+              '..', './', 'Format: y', 'Format:', 'Files: *', 'License: GPL-2+', 'x:', ':x', ':', 'machine-readable',
+              'a  b', 'a\tb', '<none>', '1.0/', 'v1.0 http://example.org/f', 'see https://example.org/f/ .', '\U0001f600']
+FMT_FIXED = [CUR_FORMAT] + FMT_FIXABLE + FMT_NEAR + FMT_DEP5 + FMT_UNKNOWN_URLS + FMT_NONURL
+
+URL_SCHEMES = ['http://', 'https://', 'http://', 'https://', 'http://', 'https://', 'HTTP://', 'Https://', 'ftp://',
+               'git://', 'svn+ssh://']
+URL_HOSTS = ['example.org', 'www.example.org', 'www.debian.org', 'dep.debian.net', 'anonscm.debian.org', 'ftp.debian.org',
+             'salsa.debian.org', 'github.com', 'localhost:8080', 'user@host.example', 'été.example', '[::1]']
+URL_PATHS = ['', '', '/proj', '/proj.git', '/~user', '/a/b', '/debian/pool/main/p/pkg', '/viewvc/dep/web/deps/dep5.mdwn',
+             '/deps/dep5', '/a//b', '/a/./b', '/%7Euser', '/a%20b', '/download/v1.0', '/doc/packaging-manuals/copyright-format/1.0',
+             '/x/y-z_1.2.3.orig.tar.gz', '/日本']
+URL_SLASHES = ['', '', '/', '/', '/', '//']
+URL_QUERIES = ['', '', '', '', '?rev=174', '?a=1&b=2', '?', '?q=a+b', '?view=markup&pathrev=174', '?url=http://x.example/',
+               '?a=1;b=2', '?x=/']
+URL_FRAGMENTS = ['', '', '', '', '#', '#readme', '#/', '#files-field', '#a?b', '#L10-L20']
+
+
+def gen_url(r):
+    return (r.choice(URL_SCHEMES) + r.choice(URL_HOSTS) + r.choice(URL_PATHS) + r.choice(URL_SLASHES)
+            + r.choice(URL_QUERIES) + r.choice(URL_FRAGMENTS))
+
+
+def gen_format(r):
+    """One Format value (a single line without outer blanks)."""
+    k = r.random()
+    if k < 0.08:
+        return CUR_FORMAT
+    if k < 0.26:
+        return r.choice(FMT_FIXABLE)
+    if k < 0.46:
+        return r.choice(FMT_NEAR)
+    if k < 0.62:
+        return r.choice(FMT_DEP5)
+    if k < 0.72:
+        return r.choice(FMT_UNKNOWN_URLS)
+    if k < 0.84:
+        return gen_url(r)
+    if k < 0.94:
+        return r.choice(FMT_NONURL)
+    # a known spelling, decorated
+    base = r.choice([CUR_FORMAT] + FMT_FIXABLE + FMT_DEP5[:4])
+    return base + r.choice(['/', '?', '#', '?x', '#x', '/x', '.', ',', ';', ')', ' x', ' x', '%20', '/.', '/..'])
+
+
+def format_class(v):
+    if v == CUR_FORMAT:
+        return 'canonical'
+    if model_fixup(v) != v:
+        return 'fixable-known'
+    low = v.lower()
+    if 'copyright-format' in low:
+        return 'near-known'
+    if 'dep5' in low or 'copyrightformat' in low:
+        return 'dep5-historical'
+    if '://' in v:
+        return 'unknown-url'
+    return 'non-url'
+
+
+def _url_tokens(text):
+    for line in text.split('\n'):
+        for tok in line.split():
+            if '://' in tok:
+                yield tok
+
+
+def url_token_features(tok):
+    feats = set()
+    low = tok.lower().lstrip('<("\'')
+    if low.startswith('http://'):
+        feats.add('http')
+    elif low.startswith('https://'):
+        feats.add('https')
+    else:
+        feats.add('other-scheme')
+    core = tok.split('#')[0].split('?')[0].rstrip('>)."\',;')
+    feats.add('trailing-slash' if core.endswith('/') else 'no-trailing-slash')
+    if '?' in tok:
+        feats.add('query')
+    if '#' in tok:
+        feats.add('fragment')
+    return feats
+
+
+def url_features(kind, val):
+    """URL shapes a header value shows (empty set: the value carries no URL)."""
+    feats = set()
+    if val is None:
+        return feats
+    if kind == 'lines':
+        texts = list(val)
+    elif kind in ('raw', 'single', 'format'):
+        texts = [val]
+    else:
+        return feats
+    for tx in texts:
+        for tok in _url_tokens(tx):
+            feats |= url_token_features(tok)
+    if feats and kind == 'raw' and '\n' in val:
+        feats.add('multi-line')
+        cont = val.split('\n')[1:]
+        if any(len(l) - len(l.lstrip(' \t')) >= 2 for l in cont):
+            feats.add('inner-lead>=2')
+        if any(l != l.rstrip() for l in cont):
+            feats.add('inner-trailing-blank')
+    if feats and kind == 'lines' and len(val) > 1:
+        feats.add('multi-line')
+    return feats
+
+
+URL_WORDS = ['see', 'and', 'mirror:', 'upstream', '(archived)', 'via', 'homepage', 'Source:', 'git', 'tarball', 'été']
+
+
+def gen_url_line(r):
+    k = r.random()
+    if k < 0.5:
+        return gen_url(r)
+    if k < 0.7:
+        return '%s %s' % (r.choice(URL_WORDS), gen_url(r))
+    if k < 0.8:
+        return '<%s>' % gen_url(r)
+    if k < 0.9:
+        return '%s %s %s' % (gen_url(r), r.choice(URL_WORDS), gen_url(r))
+    return '%s %s .' % (r.choice(URL_WORDS), gen_url(r))
+
+
+def gen_url_raw(r, maxlines=4):
+    """Raw Deb822 value (Source / Disclaimer / Comment) made of URL-ish lines: continuation lines with one or several
+    leading blanks / a tab and with or without trailing blanks - written by the generator's own encoder."""
+    if r.random() < 0.4:
+        return gen_url_line(r)
+    first = '' if r.random() < 0.3 else gen_url_line(r)
+    out = [first]
+    for _ in range(r.randint(1, maxlines)):
+        if r.random() < 0.1:
+            out.append(' .')
+            continue
+        lead = r.choice([' ', ' ', '  ', '   ', '\t', ' \t', '        '])
+        trail = r.choice(['', '', '', ' ', '  ', '\t', ' \t '])
+        out.append(lead + gen_url_line(r) + trail)
+    return '\n'.join(out)
+
+
+def gen_urlish_value(r, attr):
+    if attr == 'upstream_name':
+        k = r.random()
+        if k < 0.5:
+            return gen_url(r)
+        if k < 0.7:
+            return '%s %s' % (gen_single(r), gen_url(r))
+        return r.choice(['proj/', 'proj//', 'a  b', 'http', 'https:', 'example.org/proj/', 'proj (https://example.org/)'])
+    if attr == 'upstream_contact':
+        n = r.choice([1, 1, 2, 3])
+        out = []
+        for _ in range(n):
+            k = r.random()
+            if k < 0.5:
+                out.append(gen_url(r))
+            elif k < 0.7:
+                out.append('Jane Doe <jane@example.org>, %s' % gen_url(r))
+            elif k < 0.85:
+                out.append(r.choice(['mailto:jane@example.org?subject=x', 'Jane Doe <jane@example.org>',
+                                     'irc://irc.example.org/#chan', 'https://example.org/contact/ (form)']))
+            else:
+                out.append(gen_url_line(r))
+        return out
+    return gen_url_raw(r)
+
+
+URLISH_ATTRS = ('source', 'upstream_name', 'upstream_contact', 'disclaimer', 'comment')
+
+
+def gen_header_doc(r, fmt=None, how=None, bare=False):
+    """A document whose point is its HEADER: a Format value other than (or equal to) the canonical URL, given at
+    construction (Header(data)), by assignment (early / between the other fields / late, also after a first dump),
+    and/or substituted into the parsed text; URL-ish values in Source / Upstream-Name / Upstream-Contact /
+    Disclaimer / Comment; 0..2 small Files / License paragraphs."""
+    header = []
+    if not bare:
+        for a in URLISH_ATTRS:
+            if r.random() < (0.75 if a == 'source' else 0.45):
+                header.append([a, gen_urlish_value(r, a) if r.random() < 0.85 else gen_header_value(r, a)])
+        for a in ('license', 'copyright', 'files_excluded'):
+            if r.random() < 0.12:
+                header.append([a, gen_header_value(r, a)])
+        r.shuffle(header)
+    ops = []
+    if not bare:
+        for t in r.choice([[], [], ['F'], ['L'], ['F', 'L'], ['L', 'F'], ['F', 'F']]):
+            if t == 'F':
+                op = {'t': 'F', 'files': gen_patterns(r), 'copyright': gen_raw(r, 2, copyright_like=True),
+                      'license': [r.choice(SYNOPSES), gen_text(r, 3)], 'then': []}
+            else:
+                op = {'t': 'L', 'license': [r.choice(SYNOPSES), gen_text(r, 3)], 'then': []}
+            if r.random() < 0.2:
+                op['then'].append(['comment', gen_url_raw(r, 2)])
+            op['pos'] = r.randrange(1000)
+            ops.append(op)
+    case = {'kind': 'doc', 'input': r.choice(INPUTS), 'header': header, 'ops': ops, 'early': int(r.random() < 0.5),
+            'nonstrict': 1, 'second_round': 1}
+    if how is None:
+        how = r.choice(['data', 'data', 'assign', 'assign', 'assign-twice', 'late', 'late', 'parsed', 'data+late'])
+    v = gen_format(r) if fmt is None else fmt
+    if how.startswith('data'):
+        # header fields of raw / single kind may travel in the data object, too; Format at any position among them
+        fields = []
+        for entry in list(header):
+            if entry[0] in DATA_FIELD_NAMES and entry[1] is not None and r.random() < 0.5 \
+                    and entry[0] not in [f[0] for f in fields]:
+                fields.append(entry)
+                header.remove(entry)
+        case['hdata'] = {'format': v, 'fields': fields, 'pos': r.randint(0, len(fields))}
+        if how == 'data+late':
+            case['late'] = [['H', 'format', gen_format(r)]]
+    elif how == 'assign':
+        header.insert(r.randint(0, len(header)), ['format', v])
+    elif how == 'assign-twice':
+        header.insert(r.randint(0, len(header)), ['format', v])
+        header.insert(r.randint(0, len(header)), ['format', gen_format(r)])
+    elif how == 'late':
+        if r.random() < 0.4:
+            header.insert(r.randint(0, len(header)), ['format', gen_format(r)])
+        case['late'] = [['H', 'format', v]]
+        if r.random() < 0.3 and not bare:
+            case['late'].insert(r.randint(0, 1), ['H', 'source', gen_urlish_value(r, 'source')])
+    if case.get('late') and r.random() < 0.5:
+        case['late_after_dump'] = 1
+    if not how.startswith('data') and r.random() < 0.4:
+        case['hdr'] = 'own'
+    if how == 'parsed':
+        case['fmt_parsed'] = [[v, 'format']]
+    if how == 'parsed-format-specification':
+        case['fmt_parsed'] = [[v, 'format-specification']]
+    if not bare:
+        parsed = case.setdefault('fmt_parsed', [])
+        for _ in range(r.choice([0, 1, 1, 2])):
+            parsed.append([gen_format(r), 'format' if r.random() < 0.75 else 'format-specification'])
+        if not parsed:
+            del case['fmt_parsed']
+        if r.random() < 0.3:
+            # a second Header object with a format of its own, never added: Header objects share no state
+            case['hdecoys'] = [[['format', gen_format(r)]] + ([['source', gen_urlish_value(r, 'source')]]
+                                                             if r.random() < 0.5 else [])]
+    return case
+
+
+ENUM_FORMAT_HOWS = ('data', 'assign', 'late', 'parsed', 'parsed-format-specification')
+
+
+def enum_format_docs():
+    """The complete small sub-space: every fixed Format value x every way of giving it, as header-only documents."""
+    import random
+    for i, v in enumerate(FMT_FIXED):
+        for j, how in enumerate(ENUM_FORMAT_HOWS):
+            yield gen_header_doc(random.Random('fmt-enum/%d/%d' % (i, j)), fmt=v, how=how, bare=True)
+
+
+def add_format_to_doc(case, r):
+    """Give an ordinary / factory document spec a non-default Format (drawn from a stream of its own, so the spec
+    itself is the one the module always generated)."""
+    header = case['header']
+    header.insert(r.randint(0, len(header)), ['format', gen_format(r)])
+    if r.random() < 0.5:
+        case['fmt_parsed'] = [[gen_format(r), 'format' if r.random() < 0.75 else 'format-specification']]
+    case['second_round'] = 1
+    return case
+
+
 CODEC_ALPHABET = ['', ' ', '.', ' .', 'a', ' a', 'a ', '..', '\t', 'a b', '. ']
 CODEC_EXTRA = ['\ta', 'a\t', '  ', ' \t', '. .', '.a', '#', ' #', 'K: v', ' K: v', 'é', ' é ', '\u00a0',
                'a\u00a0', '  a  ', '...', ' . ', '\t.', '-- ', 'granted,  ', ' ..', 'x' * 90, '-', ':']
@@ -1195,6 +1664,9 @@ def doc_features(final):
             feats.add('contact-single' if len(val) == 1 else 'contact-multi')
         if attr == 'license' and val is not None:
             feats.add('header-license')
+        if kind != 'format':
+            for f in url_features(kind, val):
+                feats.add('url-%s-%s' % (attr.replace('_', '-'), f))
     for t, vals in final['paras']:
         table = FILES_FIELDS if t == 'F' else LICENSE_FIELDS
         feats.add('files-paragraph' if t == 'F' else 'license-paragraph')
@@ -1219,6 +1691,11 @@ def final_values(case, late=True):
     'paras' are the paragraphs that are added (in order of addition), 'decoys'
     the ones created but never added, 'hdecoys' stand-alone Header objects."""
     header = {}
+    hd = case.get('hdata')
+    if hd is not None:
+        for attr, val in hd.get('fields', []):
+            header[attr] = val
+        header['format'] = model_fixup(hd['format'])       # fixed up when the Header is constructed over the data
     for attr, val in case.get('header', []):
         header[attr] = val
     paras, decoys = [], []
@@ -1315,9 +1792,12 @@ def _kind_of(p, copyright):
     return '?'
 
 
-def _compare_obj(p, t, vals, where, label, copyright, out):
+def _compare_obj(p, t, vals, where, label, copyright, out, parsed=False):
     """Read every typed property of one paragraph object and compare it with the
-    generator's value; returns the number of values compared."""
+    generator's value; returns the number of values compared.  The expected
+    Format of a header is the value last given to it (CUR_FORMAT for a fresh
+    Header()); of a header that was PARSED from text showing that value:
+    model_fixup of it."""
     table = HEADER_FIELDS if t == 'H' else FILES_FIELDS if t == 'F' else LICENSE_FIELDS
     try:
         got_vals = _read_values(p, t, copyright)
@@ -1329,14 +1809,16 @@ def _compare_obj(p, t, vals, where, label, copyright, out):
     for attr in table:
         kind = table[attr][1]
         exp = vals.get(attr)
+        if kind == 'format':
+            exp = CUR_FORMAT if exp is None else exp
+            if parsed:
+                exp = model_fixup(exp)
         got = got_vals[attr]
         n += 1
         if not _same(kind, exp, got, copyright):
             out.append((_field_key(t, attr, kind, exp, got, copyright, where),
                         'paragraph %s (%s) .%s: generator wrote %r, %s document has %r'
                         % (label, t, attr, exp, where, got)))
-    if t == 'H' and p.format != copyright._CURRENT_FORMAT:
-        out.append(('%s-header-format-differs' % where, 'Format is %r' % (p.format,)))
     return n
 
 
@@ -1360,10 +1842,42 @@ def check_doc(case, stats=None):
     from .. import contracts
     from ..core import MonitorViolation
     try:
-        return _check_doc(case, stats)
+        if not format_values(case):
+            return _check_doc(case, stats)
+        # a document with a Format given explicitly: the library may log (it does: logging.warning) or warn about
+        # formats it does not know - its business; whatever it passes to the warnings module is recorded, not raised
+        # (one of the ambient configurations turns UserWarning into an exception) and never judged
+        import warnings
+        with warnings.catch_warnings(record=True) as caught:
+            warnings.simplefilter('always')
+            found = _check_doc(case, stats)
+        if caught:
+            LOGGED['warnings-module:recorded-in-format-cases'] += len(caught)
+        return found
     except MonitorViolation as e:
         contracts.PENDING[:] = []
         return [(e.key, e.msg)]
+
+
+def format_values(case):
+    """[(how, value)] for every Format value the spec gives explicitly."""
+    vals = []
+    hd = case.get('hdata')
+    if hd is not None:
+        vals.append(('data', hd['format']))
+    for attr, val in case.get('header', []):
+        if attr == 'format':
+            vals.append(('assign', val))
+    for target, attr, val in case.get('late', []):
+        if target == 'H' and attr == 'format':
+            vals.append(('assign-late', val))
+    for assignments in case.get('hdecoys', []):
+        for attr, val in assignments:
+            if attr == 'format':
+                vals.append(('decoy-header', val))
+    for val, style in case.get('fmt_parsed', []):
+        vals.append(('parsed' if style == 'format' else 'parsed-format-specification', val))
+    return vals
 
 
 class _State(object):
@@ -1450,7 +1964,24 @@ def _build(case, copyright, out, stats, licobjs=None):
             header_decoy(k)
         c = st.c = _lib(copyright.Copyright)
         own = case.get('hdr') == 'own'
-        h = st.header = _lib(copyright.Header) if own else c.header
+        hd = case.get('hdata')
+        if hd is not None:
+            # the header is CONSTRUCTED over a data object that already carries Format (and possibly other fields)
+            from debian import deb822
+            entries = [[DATA_FIELD_NAMES[attr], val] for attr, val in hd.get('fields', [])]
+            entries.insert(min(hd.get('pos', 0), len(entries)), ['Format', hd['format']])
+            data = _lib(deb822.Deb822)
+            for name, val in entries:
+                _lib(data.__setitem__, name, val)
+            h = st.header = _lib(copyright.Header, data)
+            for attr, val in hd.get('fields', []):
+                st.hcur[attr] = val
+            st.hcur['format'] = model_fixup(hd['format'])
+            own = True
+            if early:
+                st.check(h, 'H', st.hcur, 'created', 'header-over-data', copyright, out)
+        else:
+            h = st.header = _lib(copyright.Header) if own else c.header
         for attr, val in case.get('header', []):
             _lib(setattr, h, attr, to_lib(HEADER_FIELDS[attr][1], val))
             st.hcur[attr] = val
@@ -1580,13 +2111,13 @@ def _verify(case, st, copyright, out, stats, perm=True):
     if stats is not None:
         stats['order'] = order
 
-    def compare(objs, where, expected=expected):
+    def compare(objs, where, expected=expected, parsed=True):
         n = 0
         for idx, (p, (t, vals)) in enumerate(zip(objs, expected)):
-            n += _compare_obj(p, t, vals, where, '#%d' % idx, copyright, out)
+            n += _compare_obj(p, t, vals, where, '#%d' % idx, copyright, out, parsed)
         return n
 
-    compare(seq, 'built')
+    compare(seq, 'built', parsed=False)
     # objects that were created by the same factories but never added keep their own values, too
     for p, t, vals, label in st.decoys + st.hdecoys:
         st.watched += st.check(p, t, vals, 'watched', label, copyright, out)
@@ -1623,16 +2154,55 @@ def _verify(case, st, copyright, out, stats, perm=True):
         stats['values'] = n
         stats['paras'] = len(seq2)
 
-    # ---- second generation text
+    # ---- second generation text: identical to the first dump - except that a Format the first dump shows in one of
+    # the spellings the documented fix-up covers (it was ASSIGNED, assignment rewrites nothing) is rewritten by the
+    # parse: then exactly that one line differs
+    fmt_cur = st.hcur.get('format') or CUR_FORMAT
+    fmt_fix = model_fixup(fmt_cur)
+    text_fixed = text if fmt_fix == fmt_cur else swap_format_line(text, fmt_cur, 'Format: ' + fmt_fix)
+    if stats is not None and fmt_fix != fmt_cur:
+        stats['fmt_rewritten_on_reparse'] = 1
     try:
         text2 = c2.dump()
     except Exception as e:
         out.append(('redump-raises/%s' % type(e).__name__, 'dump() of the re-parsed document raised %r' % (e,)))
         return
-    if text2 != text:
-        out.append(('redump-differs', 'dump %r, dump of re-parsed document %r' % (text, text2)))
+    if text_fixed is None:
+        if stats is not None:
+            stats['fmt_unsplittable'] = 1
+        return              # the first dump does not show the one Format line the model expects: nothing demanded of the text
+    if text2 != text_fixed:
+        out.append(('redump-differs', 'dump %r, dump of re-parsed document %r%s' % (
+            text, text2, '' if text_fixed == text else ' (expected: the first dump with the Format line fixed up to %r)' % fmt_fix)))
     if out:
         return              # what follows is only derived from a dump M.doc had no complaint about
+
+    # ---- second round: the dump of the re-parsed document parses to the same values and dumps to itself
+    if case.get('second_round'):
+        mode_2 = INPUTS[(INPUTS.index(case['input']) + 3) % len(INPUTS)]
+        try:
+            c6 = copyright.Copyright(_feed(text2, mode_2), strict=True)
+            seq6 = list(c6.all_paragraphs())
+        except Exception as e:
+            out.append(('second-round-reparse-raises/%s' % type(e).__name__,
+                        'dump %r of the re-parsed document does not parse: %r' % (text2, e)))
+            return
+        if [_kind_of(p, copyright) for p in seq6] != kinds1:
+            out.append(('second-round-paragraphs-differ', 'built %r, second round %r; text=%r'
+                        % (kinds1, [_kind_of(p, copyright) for p in seq6], text2)))
+            return
+        n6 = compare(seq6, 'second-round-reparsed')
+        try:
+            text6 = c6.dump()
+        except Exception as e:
+            out.append(('second-round-redump-raises/%s' % type(e).__name__, 'dump() raised %r' % (e,)))
+            return
+        if text6 != text2:
+            out.append(('second-round-redump-differs', 'second dump %r, third dump %r' % (text2, text6)))
+        if stats is not None:
+            stats['second_round_values'] = n6
+        if out:
+            return
 
     # ---- non-strict re-parse of the same (valid) text: same paragraphs, same typed values, same re-dump
     if case.get('nonstrict'):
@@ -1655,16 +2225,103 @@ def _verify(case, st, copyright, out, stats, perm=True):
         except Exception as e:
             out.append(('nonstrict-redump-raises/%s' % type(e).__name__, 'dump() raised %r' % (e,)))
             return
-        if text5 != text:
+        if text5 != text_fixed:
             out.append(('nonstrict-redump-differs', 'dump %r, dump of the strict=False parse %r' % (text, text5)))
         if stats is not None:
             stats['nonstrict_values'] = n5
         if out:
             return
 
+    # ---- PARSED starting points: the same text with another Format value in the header
+    if case.get('fmt_parsed'):
+        _check_parsed_formats(case, st, text_fixed, fmt_fix, expected, compare, copyright, out, stats)
+        if out:
+            return
+
     # ---- PARSED starting points: the same paragraph texts in another order (License before / between Files)
     if perm:
-        _check_permuted(case, text, order, {'header': st.hcur, 'paras': final_paras}, compare, copyright, out, stats)
+        _check_permuted(case, text_fixed, order, {'header': st.hcur, 'paras': final_paras}, compare, copyright, out, stats)
+
+
+def _check_parsed_formats(case, st, text, fmt_shown, expected, compare, copyright, out, stats):
+    """`text` is a dump that parses back to the spec and to itself and shows
+    'Format: <fmt_shown>' in its header.  For every (V, style) of the case that
+    line is replaced by 'Format: V' (or by the deprecated spelling
+    'Format-Specification: V' the library documents to rewrite as Format) and the
+    text is parsed: Format reads model_fixup(V), every other value is the
+    spec's, dump() is the parsed text with the Format line showing
+    model_fixup(V) (style 'format'; for 'format-specification' the first dump
+    is not compared with a reference text), and that dump parses to the same
+    values and dumps to itself."""
+    kinds1 = [t for t, _ in expected]
+    runs = 0
+    values = 0
+    for k, (v, style) in enumerate(case['fmt_parsed']):
+        name = 'Format' if style == 'format' else 'Format-Specification'
+        text_p = swap_format_line(text, fmt_shown, '%s: %s' % (name, v))
+        if text_p is None:
+            if stats is not None:
+                stats['fmt_unsplittable'] = 1
+            return
+        fixed = model_fixup(v)
+        exp_p = [('H', dict(st.hcur, format=fixed))] + list(expected[1:])
+        what = 'parsed-%s' % style
+        strict = (k + len(case['fmt_parsed'])) % 2 == 0
+        mode = INPUTS[(INPUTS.index(case['input']) + 1 + k) % len(INPUTS)]
+
+        def parse(t, m, strict, what):
+            try:
+                doc = copyright.Copyright(_feed(t, m), strict=strict)
+                objs = list(doc.all_paragraphs())
+            except Exception as e:
+                out.append(('%s-parse-raises/%s' % (what, type(e).__name__),
+                            'text %r (a dump with the Format line replaced; strict=%r, fed as %s) does not parse: %r'
+                            % (t, strict, m, e)))
+                return None, None
+            kinds = [_kind_of(p, copyright) for p in objs]
+            if kinds != kinds1:
+                out.append(('%s-paragraphs-differ' % what, 'text carries %r, parsed document reports %r; text=%r'
+                            % (kinds1, kinds, t)))
+                return None, None
+            return doc, objs
+
+        c7, objs7 = parse(text_p, mode, strict, what)
+        if c7 is None:
+            return
+        before = len(out)
+        values += compare(objs7, what, exp_p)
+        try:
+            text7 = c7.dump()
+        except Exception as e:
+            out.append(('%s-dump-raises/%s' % (what, type(e).__name__), 'dump() of the parsed document raised %r' % (e,)))
+            return
+        if style == 'format':
+            want = swap_format_line(text_p, v, 'Format: ' + fixed)
+            if want is not None and text7 != want:
+                out.append(('%s-dump-differs-from-parsed-text' % what,
+                            'parsed %r, dump() gives %r (expected: the parsed text with Format %r)' % (text_p, text7, fixed)))
+        if len(out) != before:
+            return
+        # one more cycle from what the first dump shows: same values, same text
+        c8, objs8 = parse(text7, INPUTS[(INPUTS.index(mode) + 2) % len(INPUTS)], True, what + '-second-cycle')
+        if c8 is None:
+            return
+        values += compare(objs8, what + '-second-cycle', exp_p)
+        try:
+            text8 = c8.dump()
+        except Exception as e:
+            out.append(('%s-second-cycle-dump-raises/%s' % (what, type(e).__name__), 'dump() raised %r' % (e,)))
+            return
+        if text8 != text7:
+            out.append(('%s-second-cycle-dump-differs' % what, 'first cycle %r, second cycle %r' % (text7, text8)))
+        if len(out) != before:
+            return
+        runs += 1
+        if stats is not None:
+            stats.setdefault('fmt_parsed_styles', []).append((style, v))
+    if stats is not None:
+        stats['fmt_parsed_runs'] = runs
+        stats['fmt_parsed_values'] = values
 
 
 def permuted_order(case):
@@ -1832,10 +2489,31 @@ def _candidates(case):
         c = copy.deepcopy(case)
         del c['late'][i]
         yield c
-    for flag in ('late_after_dump', 'hdr', 'early', 'nonstrict'):
+    for flag in ('late_after_dump', 'hdr', 'early', 'nonstrict', 'second_round'):
         if case.get(flag):
             c = copy.deepcopy(case)
             del c[flag]
+            yield c
+    for i in range(len(case.get('fmt_parsed', []))):
+        c = copy.deepcopy(case)
+        del c['fmt_parsed'][i]
+        if not c['fmt_parsed']:
+            del c['fmt_parsed']
+        yield c
+    if case.get('hdata') is not None:
+        for i in range(len(case['hdata'].get('fields', []))):
+            c = copy.deepcopy(case)
+            del c['hdata']['fields'][i]
+            yield c
+        # the same Format by assignment instead of at construction
+        c = copy.deepcopy(case)
+        hd = c.pop('hdata')
+        c['header'] = [list(f) for f in hd.get('fields', [])] + [['format', hd['format']]] + c.get('header', [])
+        yield c
+    for i, assignments in enumerate(case.get('hdecoys', [])):
+        for j in range(len(assignments)):
+            c = copy.deepcopy(case)
+            del c['hdecoys'][i][j]
             yield c
     for i, op in enumerate(ops):
         if op.get('reuse'):
@@ -2264,6 +2942,32 @@ _STANDALONE = ('import sys, json\n'
                'from vp.props import c17\n'
                'sys.stdout.write("RESULT " + json.dumps(c17.standalone(json.load(sys.stdin))))\n')
 
+import collections as _collections
+LOGGED = _collections.Counter()     # what the library logged / warned (recorded, never judged)
+
+
+def _install_log_recorder():
+    """A handler on the library's own logger: counts its records by message template (no formatting, no output).
+    Records still propagate to the root logger (the DEBUG-logging ambient formats them there)."""
+    import logging
+
+    class _Recorder(logging.Handler):
+        def emit(self, record):
+            msg = record.msg if isinstance(record.msg, str) else repr(record.msg)
+            if msg.startswith('format not known'):
+                LOGGED['log:format-not-known'] += 1
+            elif msg.startswith('Fixing Format URL'):
+                LOGGED['log:fixing-format-url'] += 1
+            elif msg.startswith('use of deprecated "Format-Specification"'):
+                LOGGED['log:deprecated-format-specification'] += 1
+            else:
+                LOGGED['log:other'] += 1
+
+    lg = logging.getLogger('debian.copyright')
+    if not any(type(h).__name__ == '_Recorder' for h in lg.handlers):
+        lg.addHandler(_Recorder())
+
+
 CONFIRM_BUDGET = [24]     # fresh-interpreter executions per shard process spent on confirming witnesses
 PREV_DOCS = []            # the last few document specs this process built without a finding
 
@@ -2344,7 +3048,11 @@ def setup(ctx):
             return None
 
     contracts.wrap(copyright, 'format_multiline_lines', 'K.codec', post=post, snapshot=snapshot)
+    _install_log_recorder()
     ctx.extra['exhaustive_subspaces'] = [
+        'header formats: every one of the %d fixed Format values (canonical, the 3 spellings the documented fix-up '
+        'covers, near misses, historical DEP-5 URLs, unknown URLs, non-URL strings) x %d ways of giving it %r, as '
+        'header-only documents' % (len(FMT_FIXED), len(ENUM_FORMAT_HOWS), ENUM_FORMAT_HOWS),
         'codec: all line lists of length 0..4 over the 11-line alphabet %r (16105 lists; those inside the stated '
         'domain are judged)' % (CODEC_ALPHABET,)]
 
@@ -2360,12 +3068,27 @@ def cases(ctx):
             case['early'] = 1
         if rx.random() < 0.25:
             case['nonstrict'] = 1
+        if rx.random() < FORMAT_IN_ORDINARY_DOCS:
+            add_format_to_doc(case, rx)
         yield case
     # 1b. factory documents: 2..5 stand-alone License paragraphs interleaved with Files paragraphs, recurring values,
     #     decoys, late assignments, punctuated list entries
     n = ctx.size(FACTORY['quick'], FACTORY['thorough'])
     for i in range(n):
-        yield gen_factory_doc(ctx.rng('fdoc', i))
+        case = gen_factory_doc(ctx.rng('fdoc', i))
+        rx = ctx.rng('fdocx', i)
+        if rx.random() < FORMAT_IN_ORDINARY_DOCS:
+            add_format_to_doc(case, rx)
+        yield case
+    # 1e. header documents: Format values other than the canonical URL (complete fixed sub-space, sharded; then
+    #     seeded), URL-ish values in the other header fields
+    for i, case in enumerate(enum_format_docs()):
+        if ctx.mine(i):
+            case['enumerated'] = 1
+            yield case
+    n = ctx.size(HEADERDOCS['quick'], HEADERDOCS['thorough'])
+    for i in range(n):
+        yield gen_header_doc(ctx.rng('hdoc', i))
     # 1c. several documents in one case
     n = ctx.size(MULTI['quick'], MULTI['thorough'])
     for i in range(n):
@@ -2454,6 +3177,48 @@ def _count_factory(ctx, case, stats):
         ctx.mon('M.nonstrict-value', stats['nonstrict_values'])
     if stats.get('watched'):
         ctx.mon('M.watch', stats['watched'])
+
+
+def _count_formats(ctx, case, stats):
+    """Counters of the header-format class for one document spec that was judged."""
+    fvals = format_values(case)
+    if not fvals:
+        return
+    ctx.count('fmt:documents')
+    if case.get('enumerated'):
+        ctx.count('fmt:enumerated')
+    parsed_run = set(tuple(x) for x in stats.get('fmt_parsed_styles', []))
+    seen = set()
+    for how, v in fvals:
+        if how.startswith('parsed') and (how[7:] or 'format', v) not in parsed_run:
+            continue                # the parsed stage was not reached for this value
+        cls = format_class(v)
+        if how == 'assign-late' and stats.get('late_after_dump'):
+            how = 'assign-late-after-first-dump'
+        for name in ('fmt:how:%s' % how, 'fmt:class:%s' % cls, 'fmt:%s:%s' % (how, cls)):
+            if name not in seen:
+                seen.add(name)
+                ctx.count(name)
+        for f in url_features('format', v):
+            name = 'fmt:url:%s' % f
+            if name not in seen:
+                seen.add(name)
+                ctx.count(name)
+        if how == 'data' and cls == 'fixable-known':
+            ctx.count('fmt:rewritten-at-construction')
+        if how.startswith('parsed') and cls == 'fixable-known':
+            ctx.count('fmt:rewritten-when-parsed')
+    if stats.get('fmt_rewritten_on_reparse'):
+        ctx.count('fmt:assigned-spelling-rewritten-on-reparse')
+    if stats.get('fmt_unsplittable'):
+        ctx.count('fmt:unsplittable')
+    if stats.get('fmt_parsed_runs'):
+        ctx.mon('M.fmt-parsed', stats['fmt_parsed_runs'])
+        ctx.mon('M.fmt-parsed-value', stats.get('fmt_parsed_values', 0))
+    if stats.get('second_round_values'):
+        ctx.mon('M.second-round')
+        ctx.mon('M.second-round-value', stats['second_round_values'])
+    ctx.mon('M.fmt')
 
 
 def _report_doc_findings(ctx, case, found):
@@ -2621,6 +3386,7 @@ def run_case(ctx, case):
     if order is not None and order != sorted(order):
         ctx.count('feat:files-added-after-license')
     ctx.count('paras:%d' % len(real_ops(case)))
+    _count_formats(ctx, case, stats)
     _count_factory(ctx, case, stats)
     perm = stats.get('perm')
     if perm is not None:
@@ -2633,7 +3399,8 @@ def run_case(ctx, case):
         for cl in stats.get('perm_classes', ()):
             ctx.count('perm:%s' % cl)
         ctx.count('perm-input:%s' % case['input'])
-    if nontrivial or any(f.startswith('punct-') for f in feats):
+    if nontrivial or any(f.startswith('punct-') for f in feats) or \
+            any(v != CUR_FORMAT for _how, v in format_values(case)):
         ctx.nontrivial()
     if found:
         _report_doc_findings(ctx, case, found)
@@ -2645,6 +3412,8 @@ def run_case(ctx, case):
 def finish(ctx):
     from .. import contracts
     contracts.flush_evals(ctx)
+    for name, n in LOGGED.items():
+        ctx.count('recorded:%s' % name, n)
 
 
 LEVEL_TEXT = ('Runtime monitoring: seeded specs of copyright documents (header fields, 0..4 Files paragraphs, 0..3 '
@@ -2655,7 +3424,9 @@ LEVEL_TEXT = ('Runtime monitoring: seeded specs of copyright documents (header f
               'value the generator wrote (10000 documents quick / 560000 thorough); the re-dump must be identical.  The '
               'multiline codec and License.to_str/from_str are driven with 2e5 / 1.12e7 random line lists plus all '
               '16105 lists of length <= 4 over an 11-line alphabet, judged only inside the stated precondition.  '
-              'Held-on-observed, not a proof: reach is the generated documents and lists.')
+              'Header Format values other than the canonical URL (every fixed value x every way of giving it, plus '
+              'seeded ones) and URL-ish header values are judged against the module\'s own model of the documented '
+              'fix-up.  Held-on-observed, not a proof: reach is the generated documents and lists.')
 LEVEL_NOTE = ('Trusted: CPython, the spec generator and its own Deb822 value encoder for raw fields, the domain '
               'predicates (texts end in a non-blank line, no whitespace-only or lone-"." line, only \\n as line '
               'boundary, no outer blanks on first lines). Paragraph order is taken from the built document by object '
